@@ -17,7 +17,7 @@ META = {
             "sign/mantissa/exponent (zeros, subnormals, 1+-ulp, 0.1, 2^53 neighbours, max), integers (2^53+1, 2^55-1, 2^64+1, 10^30, "
             "2^1024) and rationals; each case (value as bit pattern, exact integer, or error class) is replayed against the real "
             "is/2 in four evaluation contexts. Reduced scope (DESIGN.md section 9): for exp log sin cos tan asin acos atan atan2 and "
-            "inexact ** only domain errors, overflow classification and exact special points are decided, not their values. "
+            "inexact ** with a non-integer exponent only domain errors, overflow classification and exact special points are decided, not their values; an integer power of a float must lie within one ulp of the correctly rounded exact value. "
             "Bounded-exhaustive conformance over the alphabet, not proof.",
     "note": "Trusted: TLC, BigInt.tla/Float64.tla (sanity theorems model-checked in the same run; every decided value cross-checked "
             "against Python's IEEE doubles and fractions), the LeafAnswer projection of the harness (floats as bit patterns). No float "
@@ -146,6 +146,8 @@ def expected_text(v):
         return "evaluation_error(%s)" % v["err"]
     if rk == "either":
         return "%s:%s|%s:%s" % (v["v"]["t"], show(v["v"]), v["c"]["t"], show(v["c"]))
+    if rk == "near":
+        return "within one ulp of f:%s" % show(v["v"])
     return "some finite float"
 
 
@@ -198,6 +200,11 @@ def judge(out, v):
         if "same" in ms:
             return "ok"
         return "zerosign" if "zerosign" in ms else "bad"
+    if rk == "near":
+        if "f" not in x:
+            return "bad"
+        g, c = int(x["f"], 16), bits_of(v["v"])
+        return "ok" if (g & INF_BITS) != INF_BITS and (g >> 63) == (c >> 63) and abs(g - c) <= 1 else "bad"
     if rk == "anyfloat":
         if "f" not in x:
             return "bad"
